@@ -597,7 +597,7 @@ class _Fn:
                 t, ty = self.expr(node.args[0], False)
             except Unsupported:
                 return None
-            if ty == "sset":
+            if set_elem_type(ty) is not None:
                 return t
         return None
 
@@ -751,13 +751,13 @@ class _Fn:
             return f"({a} {sym} {b})", "int"
         if (ta, tb) == ("str", "str") and isinstance(node.op, ast.Add):
             return f"({a} ++ {b})", "str"
-        if (ta, tb) == ("sset", "sset"):
+        if ta == tb and (ta == "sset" or (set_elem_type(ta) is not None and set_elem_type(ta) in self.spec.type_defaults)):
             if isinstance(node.op, ast.Sub):
-                return f"({a}.filter (fun pyElem => !({b}.contains pyElem)))", "sset"
+                return f"({a}.filter (fun pyElem => !({b}.contains pyElem)))", ta
             if isinstance(node.op, ast.BitAnd):
-                return f"({a}.filter (fun pyElem => {b}.contains pyElem))", "sset"
+                return f"({a}.filter (fun pyElem => {b}.contains pyElem))", ta
             if isinstance(node.op, ast.BitOr):
-                return f"({a} ++ {b})", "sset"
+                return f"({a} ++ {b})", ta
         raise Unsupported(f"{where}: `{ast.unparse(node)}`: operator {type(node.op).__name__} on {ta} and {tb}")
 
     # ---- calls, comprehensions ------------------------------------------------------------------------------------
@@ -859,7 +859,43 @@ class _Fn:
             self.lam -= 1
             self.scopes.pop()
 
+    def _listcomp2(self, node, eff):
+        """`[e for a in A if ca for b in B if cb]` (two generators; B, cb and e may mention a) -> List.flatMap"""
+        where = f"{self.fn.name}:{node.lineno}"
+        g1, g2 = node.generators
+        for g in (g1, g2):
+            if g.is_async or not isinstance(g.target, ast.Name) or g.target.id not in self.loopvars:
+                raise Unsupported(f"{where}: comprehension target `{ast.unparse(g.target)}` (a name bound here only)")
+        if g1.target.id == g2.target.id:
+            raise Unsupported(f"{where}: both generators bind {g1.target.id!r}")
+        src1, ts1 = self.expr(g1.iter, eff)
+        if elem_type(ts1) is None:
+            raise Unsupported(f"{where}: comprehension over a {ts1} (lists only)")
+        v1, v2 = lean_ident(g1.target.id), lean_ident(g2.target.id)
+
+        def inner():
+            c1 = [self.cond(c, False) for c in g1.ifs]
+            src2, ts2 = self.expr(g2.iter, False)
+            if elem_type(ts2) is None:
+                raise Unsupported(f"{where}: comprehension over a {ts2} (lists only)")
+
+            def innermost():
+                return [self.cond(c, False) for c in g2.ifs], self.expr(node.elt, False)
+            c2, (body, tb) = self._under({g2.target.id: (v2, elem_type(ts2))}, innermost)
+            if isinstance(tb, tuple) or tb in ("sdict", "sset"):
+                raise Unsupported(f"{where}: a list of {tb}")
+            if c2:
+                src2 = f"({src2}.filter (fun {v2} => {' && '.join(c2)}))"
+            t = f"({src2}.map (fun {v2} => {body}))"
+            if c1:
+                t = f"(if {' && '.join(c1)} then {t} else [])"
+            return t, tb
+        t, tb = self._under({g1.target.id: (v1, elem_type(ts1))}, inner)
+        return f"({src1}.flatMap (fun {v1} => {t}))", list_of(tb)
+
     def e_ListComp(self, node, eff):
+        if len(node.generators) == 2:
+            return self._listcomp2(node, eff)
         src, v, scope = self._generator(node, eff)
         body, tb = self._under(scope, lambda: self.expr(node.elt, False))
         if isinstance(tb, tuple) or tb in ("sdict", "sset"):
@@ -1448,6 +1484,23 @@ class _Fn:
                 finally:
                     self.lam += 1
                 return False
+            if kind == "findtree":
+                # for x in L: <tree of `if`s whose leaves are `return e` or nothing>  ->  the value returned for the
+                # first element that reaches a `return` (List.findSome?); the loop falls through when there is none
+                def tree(stmts):
+                    stmts = [b for b in stmts if not self._is_ignored_call(b)]
+                    if not stmts:
+                        return "none"
+                    if isinstance(stmts[0], ast.Return):
+                        t, ty = self.expr(stmts[0].value, False)
+                        if ty != self.spec.ret:
+                            raise Unsupported(f"{where}: returns a {ty}, the spec says {self.spec.ret}")
+                        return f"(some {t})"
+                    return f"(if {self.cond(stmts[0].test, False)} then {tree(stmts[0].body)} else {tree(stmts[0].orelse)})"
+                self.emit(depth, f"match ({src}.findSome? (fun {v} => {pre}{tree(body)})) with")
+                self.emit(depth, "| some pyRet => return pyRet")
+                self.emit(depth, "| none => pure ()")
+                return False
             if kind == "any":
                 flag = body[0].targets[0].id
 
@@ -1486,6 +1539,10 @@ class _Fn:
         if len(body) == 1 and isinstance(body[0], ast.If) and not body[0].orelse and len(body[0].body) == 1 \
                 and isinstance(body[0].body[0], ast.Return) and not s.orelse:
             return "find"
+        # (1b) for x in L: [lets]; a tree of `if / elif / else` whose leaves are `[log calls]; return e` or nothing
+        if len(body) == 1 and isinstance(body[0], ast.If) and not s.orelse and self._return_tree(body) \
+                and any(isinstance(n, ast.Return) for n in ast.walk(body[0])):
+            return "findtree"
         # (2)  for x in L: [lets]; v = e; (v |= e | v = v or e)*; if v: break      else: v = False
         if len(body) >= 2 and isinstance(body[0], ast.Assign) and len(body[0].targets) == 1 \
                 and isinstance(body[0].targets[0], ast.Name) and isinstance(body[-1], ast.If):
@@ -1527,6 +1584,17 @@ class _Fn:
             raise Unsupported(f"{where}: the loop body updates {sorted(accs)}; exactly one local declared before the "
                               "loop may be updated")
         return list(accs)[0]
+
+    def _return_tree(self, stmts):
+        """`stmts` = declared log calls, then nothing | `return e` | one `if` whose branches are of this kind again"""
+        stmts = [b for b in stmts if not self._is_ignored_call(b)]
+        if not stmts:
+            return True
+        if len(stmts) != 1:
+            return False
+        if isinstance(stmts[0], ast.Return):
+            return stmts[0].value is not None
+        return isinstance(stmts[0], ast.If) and self._return_tree(stmts[0].body) and self._return_tree(stmts[0].orelse)
 
     def _fold_seq(self, stmts, acc, where):
         """the value of the accumulator after `stmts`, as a Lean expression in which `acc` is its value before"""
